@@ -38,6 +38,12 @@ CLAIMED['C16'] = dict(
    note='Trusted: clang AST, call-graph construction (sa/callgraph.py), the SQL reader; SQLite: SELECT and read-only PRAGMA change nothing, opening/attaching an existing file does not change it. Not decided: creation of an empty p.db when a legacy directory has m.db but no p.db; journal/WAL side files.',
    ref='DESIGN.md 4 C16')
 
+CLAIMED['C14'] = dict(
+   technique='path-sensitive typestate / effect analysis over the structured clang AST: write units and sqlite_transaction scopes tracked along every path of every mutating entry point, callees inlined over the resolved call graph',
+   text='Decides, for every mutating public operation on an existing library (116 entry points: track / crate / database facade methods and the mutators of the five 2.x table classes) and for every fault position at once, the structural condition for atomicity: along every path, nothing (no write, no read) executes after the first completed write unit unless both lie in one live sqlite_transaction (A1); every transaction is committed on every normally-leaving path (A2); none is opened while another is live (A3); no catch handler on a mutator call tree can swallow an SQL error (A4); the guard class itself has BEGIN / ROLLBACK-unless-committed / COMMIT-then-flag shape (A5). No fault is injected: a two-statement setter outside a transaction is non-atomic at every fault position k >= 2.',
+   note='Trusted: clang AST, sa/atomic.py, SQLite per-statement atomicity (incl. triggers) and rollback. Not decided: library creation (many DDL statements, no transaction - the property speaks of tracks, crates, membership, fields), that the library stays usable beyond no leaked transaction. Three genuine defects repaired (v1 set_bpm, set_last_played_at, set_relative_path); five known findings in the 2.x track handle (no connection available there).',
+   ref='DESIGN.md 4 C14')
+
 NOT_APPLICABLE = {
  'C19': 'numerical result of integer/floating arithmetic over all inputs (ceiling division, quantisation, minimality, monotonicity): no structural clause beyond the division guard, which C15-U6 covers; a sound decision needs an arithmetic solver or proof (different family)',
  'C20': 'floating-point numerical behaviour of beat-grid extrapolation (bracketing, tempo preservation, idempotence up to rounding); only the iterator arithmetic is shape-visible and is covered by C15-U3',
